@@ -185,6 +185,32 @@ pub fn run(ctx: &mut Ctx) {
                 if i < 1 {
                     ctx.sample("builder-fingerprint", || json!({"bytes": hex(&bytes)}));
                 }
+                // the same program written into a reused (not zeroed) buffer: the appended value must be
+                // the CRC of the bytes actually emitted before it
+                if i % 4 == 0 {
+                    if let Some(d) = build_program_dirty(&p, if i % 8 == 0 { 0xA5 } else { 0xFF }, i % 16 == 0) {
+                        ctx.count("builder-fingerprints-dirty-destination");
+                        let m = d.len();
+                        let ok = m >= 28 && {
+                            let mut pre = d[..m - 8].to_vec();
+                            let l = m - 20;
+                            pre[2] = (l >> 8) as u8;
+                            pre[3] = l as u8;
+                            (crate::refimpl::crypto::crc32(&pre) ^ 0x5354_554e).to_be_bytes() == d[m - 4..]
+                        };
+                        if !ok {
+                            ctx.violation(
+                                "C09",
+                                "builder-fingerprint-is-rfc-crc",
+                                "MessageBuilder::write_into",
+                                "dirty-destination",
+                                || p.to_json(),
+                                "FINGERPRINT = CRC-32 of the emitted bytes before it, xor 0x5354554e".into(),
+                                format!("…{}", hex(&d[m.saturating_sub(8)..])),
+                            );
+                        }
+                    }
+                }
             }
             None => ctx.violation("C03", "in-limit-accepted", "MessageBuilder", "", || p.to_json(), "builds".into(), "refused".into()),
         }
